@@ -314,7 +314,7 @@ pub fn property() -> Property {
     Property {
         id: "C16",
         level: "exploration",
-        rule: "links: adversarial link structures built on purpose - SysV hash chains with cycles of every length 1..n and self-loops reached from the queried bucket with a name that never matches; GNU chains without stop bit whose hashes all equal the query's; Verdef/Verneed/aux records with next/aux links from {0,1,own size,aux size,distance to end,2^31,2^32-1,random} and declared counts from {1,2,3,2^16-1,2^32-1,2^40,2^64-1}, queried through the iterators and through SymbolVersionTable; note and entry sections with trailing partial records. walk: the C01 input domain (rich files with overrides/corruption, mutated samples, raw bytes) with every iterator driven to bound+1 items. Oracle: every iterator yields at most one item per input byte, a version-record iterator at most min(declared count, bytes) records, an absent name is never found, and every single case returns before the watchdog limit (15 s for links, 60 s for walk; typical cost is microseconds). Non-trivial (links): the structure is adversarial (cycle / no stop bit / zero, self or overlapping link / count larger than the data) and the lookup or iteration was executed; (walk): corrupted input that opened and reached a hash lookup or version query.",
+        rule: "links: adversarial link structures built on purpose - SysV hash chains with cycles of every length 1..n and self-loops reached from the queried bucket with a name that never matches; GNU chains without stop bit whose hashes all equal the query's; Verdef/Verneed/aux records with next/aux links from {0,1,own size,aux size,distance to end,2^31,2^32-1,random} and (also backward steps in 32-bit wrapping arithmetic) and declared counts from {1,2,3,2^16-1,2^32-1,2^40,2^64-1}, queried through the iterators and through SymbolVersionTable; note and entry sections with trailing partial records, also driven through nth(0)/skip/step_by on an advanced iterator; Debug formatting of the cyclic tables. walk: the C01 input domain (rich files with overrides/corruption, mutated samples, raw bytes) with every iterator driven to bound+1 items. Oracle: every iterator yields at most one item per input byte, a version-record iterator at most min(declared count, bytes) records, an absent name is never found, and every single case returns before the watchdog limit (15 s for links, 60 s for walk; typical cost is microseconds). Non-trivial (links): the structure is adversarial (cycle / no stop bit / zero, self or overlapping link / count larger than the data) and the lookup or iteration was executed; (walk): corrupted input that opened and reached a hash lookup or version query.",
         assumptions: &["wall-clock watchdog: limits are far above the worst legitimate nested walk on the generated sizes (version sections <= 420 bytes, files <= 16 KiB)", "a hang is detected by the watchdog; termination is not proved"],
         subs: vec![Sub::new("links", oracle_links, 400, 3_000_000, 40_000_000).hang_violation().hang_secs(15), Sub::new("walk", oracle_walk, 3000, 250_000, 8_000_000).hang_violation().shrink(2000), Sub::new("walk_raw", oracle_walk_raw, 600, 20_000, 200_000).hang_violation().shrink(2000)],
         extras: vec![crate::fuzz::c16_campaign],
